@@ -7,6 +7,8 @@ import ApiFu.C07.Lemmas
 import ApiFu.C07.LemmasScan
 import ApiFu.C07.LemmasBlock
 import ApiFu.C07.LemmasMain
+import ApiFu.C07.LemmasNumber
+import ApiFu.C07.LemmasSource
 
 namespace ApiFu.C07
 
@@ -257,5 +259,104 @@ theorem number_eq_spec (s : St) (hv : ∀ r ∈ s.rest, r < badBase) {c : Nat} {
     | some (isFloat, n) => scanDefault s = (if isFloat then .floatValue else .intValue, consumeN n s)
     | none => s.errs.length < (scanDefault s).2.errs.length :=
   scanDefault_number s hv hw hc
+
+/-- **number_longest_match** — the reference's number recogniser against the productions of §2.9.1/§2.9.2
+    stated as predicates on words (`Spec.IntValue`, `Spec.FloatValue`, no algorithm): what it returns is a
+    word of IntValue (classified Int) or of FloatValue (classified Float), no longer prefix of the text is
+    a word of either, no word is both, and it rejects only when no prefix is a number at all or (D1) when
+    the longest number is directly followed by `e`/`E`. With `number_eq_spec` and `scan_eq_spec`: the
+    scanner classifies numbers Int or Float by the grammar's longest match. -/
+theorem number_longest_match (w : List Nat) :
+    (∀ f n, Spec.number? w = some (f, n) →
+      n ≤ w.length ∧ 1 ≤ n ∧ (f = false → Spec.IntValue (w.take n)) ∧ (f = true → Spec.FloatValue (w.take n)) ∧
+      ∀ u t, w = u ++ t → Spec.IntValue u ∨ Spec.FloatValue u → u.length ≤ n) ∧
+    (Spec.number? w = none →
+      (∀ u t, w = u ++ t → ¬ (Spec.IntValue u ∨ Spec.FloatValue u)) ∨
+      ∃ f n c r, Spec.numberLoose? w = some (f, n) ∧ w.drop n = c :: r ∧ (c = 'e'.toNat ∨ c = 'E'.toNat)) ∧
+    (∀ u, ¬ (Spec.IntValue u ∧ Spec.FloatValue u)) := by
+  refine ⟨fun f n h => ?_, fun h => ?_, Spec.int_float_disjoint⟩
+  · have hl := (Spec.number_loose w).1 _ h
+    obtain ⟨h1, h2, h3, h4⟩ := Spec.numberLoose_sound hl
+    refine ⟨h1, h2, h3, h4, fun u t hw hu => ?_⟩
+    obtain ⟨f', n', hn', hle⟩ := Spec.numberLoose_max (t := t) hu
+    rw [← hw, hl] at hn'
+    cases hn'
+    exact hle
+  · rcases (Spec.number_loose w).2 h with hn | hd
+    · left
+      intro u t hw hu
+      obtain ⟨f', n', hn', _⟩ := Spec.numberLoose_max (t := t) hu
+      rw [← hw, hn] at hn'
+      cases hn'
+    · exact .inr hd
+
+/-- Non-vacuity: `-12.5e+3x` — the longest match is the Float `-12.5e+3`; `1e` is rejected by D1. -/
+example : Spec.number? [45, 49, 50, 46, 53, 101, 43, 51, 120] = some (true, 8) ∧ Spec.number? [49, 101] = none ∧
+    Spec.numberLoose? [49, 101] = some (false, 1) := by decide
+
+/-! ## The error classes of the statement -/
+
+/-- **non_source_character_error** — a valid UTF-8 text that contains a character outside
+    SourceCharacter (a control character other than TAB/LF/CR, or a code point above U+FFFD/U+FFFF)
+    anywhere — between tokens, in a comment, in a string, in a block string — always yields an error. -/
+theorem non_source_character_error (b : Bool) (src : List Nat) (hv : ∀ r ∈ src, r < badBase)
+    (h : ∃ c ∈ src, isSourceCharacter c = false) : (scanAll b src).2 ≠ [] := by
+  have hs := scan_eq_spec b src hv
+  have hno : ∀ ts, Spec.lexFrom src (src.length + 1) 0 ≠ .ok ts := by
+    intro ts hok
+    have := lexFrom_ok_source src _ 0 ts hok
+    obtain ⟨c, hc, hns⟩ := h
+    have := this c (by simpa using hc)
+    rw [hns] at this; cases this
+  unfold Spec.lexAll at hs
+  cases hr : Spec.lexFrom src (src.length + 1) 0 with
+  | ok ts => exact absurd hr (hno ts)
+  | error ts =>
+    rw [hr] at hs
+    simp only [Spec.Res.filterIgnored] at hs
+    exact hs.2
+
+/-- **stray_character_errors** — one iteration of `Scan` on valid UTF-8 records an error when it stands
+    at: a `.` that does not start `...`; a `-` not followed by a digit; a number directly followed by a
+    dangling exponent indicator is covered by `number_eq_spec`; a U+FEFF that is not the first character
+    of the text; any character that is not a SourceCharacter; any other character that starts no token
+    (`%`, `~`, `\`, `'`, U+FFFD …). Unterminated strings and invalid escapes: `string_decode`. -/
+theorem stray_character_errors (s : St) (hv : ∀ r ∈ s.rest, r < badBase) {c : Nat} {rest : List Nat}
+    (hw : s.rest = c :: rest)
+    (h : (c = 46 ∧ rest.take 2 ≠ [46, 46]) ∨
+         (c = 45 ∧ ∀ d r, rest = d :: r → isDigit d = false) ∨
+         (c = 0xFEFF ∧ s.off ≠ 0) ∨
+         isSourceCharacter c = false ∨
+         Spec.token? (s.off == 0) s.rest = none) :
+    s.errs.length < (scanToken s).2.2.errs.length := by
+  have hne : s.rest ≠ [] := by rw [hw]; simp
+  have hspec := scanToken_spec s hv hne
+  apply hspec.2
+  rcases h with ⟨rfl, ht⟩ | ⟨rfl, hd⟩ | ⟨rfl, ho⟩ | hns | hn
+  · rw [hw, spec_dot, if_neg ht]
+  · rw [hw, spec_default _ rest (by decide) (by decide) (by decide) (by decide) (by decide) (by decide) (by decide)
+      (by decide), if_pos (.inl rfl)]
+    have : Spec.number? (45 :: rest) = none := by
+      unfold Spec.number? Spec.integerPart?
+      cases rest with
+      | nil => simp [Spec.unsignedIntegerPart?]
+      | cons d r =>
+        have := hd d r rfl
+        simp [unsigned_of_not_digit (by simpa using this)]
+    rw [this]; rfl
+  · rw [hw, spec_bom, if_neg (by simpa using ho)]
+  · cases ht : Spec.token? (s.off == 0) s.rest with
+    | none => rfl
+    | some p =>
+      obtain ⟨k, n, v⟩ := p
+      exfalso
+      obtain ⟨_, hn1, _, _⟩ := hspec.1 k n v ht
+      have := token_source _ _ ht c (by
+        rw [hw]
+        cases n with
+        | zero => omega
+        | succ n => simp)
+      rw [hns] at this; cases this
+  · exact hn
 
 end ApiFu.C07
